@@ -8,3 +8,5 @@ package masswallet
 func simYield(string) {}
 
 func simPreferQuit() bool { return false }
+
+func simNewCache(interface{}) {}
